@@ -46,6 +46,7 @@ class Outcome(object):
         self.classes = []      # labels for the class histogram
         self.sample = None     # compact description for evidence
         self.commands = 0
+        self.keys = []         # further non-trivial descriptors (e.g. one per crash point)
 
     def fail(self, clause, msg, **tags):
         self.fails.append(Fail(clause, msg, **tags))
@@ -126,11 +127,12 @@ def _shard_inner(prop_id, tier, seed, shard, nshards, repo, scale, tmax):
         st["commands"] += runner.COUNT[0] - c0
         for c in out.classes:
             st["classes"][c] += 1
-        if out.key is not None:
-            k = out.key if isinstance(out.key, str) else json.dumps(out.key, sort_keys=True)
+        allkeys = ([out.key] if out.key is not None else []) + list(getattr(out, "keys", []) or [])
+        for key in allkeys:
+            k = key if isinstance(key, str) else json.dumps(key, sort_keys=True)
             if k not in st["keys"]:
                 st["keys"].add(k)
-                if len(st["samples"]) < 6 and out.sample is not None:
+                if len(st["samples"]) < 6 and out.sample is not None and key is allkeys[0]:
                     st["samples"].append(out.sample)
         known, unknown = split_fails(out.fails, known_open)
         for fid, _f in known:
